@@ -181,6 +181,16 @@ fn judge(c: &Cfg, faults: &[(u64, FaultKind)], r: &Run, p: &mut Partial, tag: &s
             .map(|e| e.0)
             .collect();
         let stat_div = bool_of(&dr.stats, "diverging").unwrap_or(false);
+        // a "huge drop" is only an energy error relative to the trajectory's start: when the start
+        // state itself carries a dropped log-density (the fault hit the evaluation of the initial
+        // point) a second drop of the same size is no energy error at all
+        let start_logp = if d == 0 {
+            r.evals.iter().filter(|e| e.0 < n_init).last().and_then(|e| e.2)
+        } else {
+            f64_of(&r.res.draws[d - 1].stats, "logp")
+        };
+        let start_is_dropped = start_logp.map(|l| l < -5e5).unwrap_or(false);
+        let traj_faults: Vec<(u64, FaultKind)> = traj_faults.into_iter().filter(|(_, f)| !(start_is_dropped && *f == FaultKind::HugeDrop)).collect();
         if !traj_faults.is_empty() {
             let must_diverge = c.preset.is_nuts() || !c.dynamic;
             if must_diverge && !(dr.diverging && stat_div) {
@@ -224,8 +234,13 @@ fn judge(c: &Cfg, faults: &[(u64, FaultKind)], r: &Run, p: &mut Partial, tag: &s
         // reported logp / gradient are those of the returned position
         let mut g = vec![0.0; dr.pos.len()];
         let lp = target().logp(&dr.pos, &mut g);
+        // what the density itself answered at the evaluation that produced this state: a finite
+        // (however wrong) value returned for the initial point is that point's log-density as far
+        // as the sampler can know
+        let answered: Vec<&(u64, Vec<f64>, Option<f64>, Vec<f64>)> = r.evals.iter().filter(|e| e.0 < hi && e.2.is_some() && mc_core::slice_bits_eq(&e.1, &dr.pos)).collect();
+        let logp_ok = |l: f64| l.to_bits() == lp.to_bits() || answered.iter().any(|e| e.2.map(|x| x.to_bits()) == Some(l.to_bits()));
         match f64_of(&dr.stats, "logp") {
-            Some(l) if l.to_bits() == lp.to_bits() => {}
+            Some(l) if logp_ok(l) => {}
             other => viol(
                 "reported-logp-is-not-that-of-the-returned-position",
                 format!("draw {d}: stats.logp={other:?}, density at the position = {lp}"),
@@ -233,7 +248,7 @@ fn judge(c: &Cfg, faults: &[(u64, FaultKind)], r: &Run, p: &mut Partial, tag: &s
             ),
         }
         if let Some(sg) = vec_of(&dr.stats, "gradient") {
-            if !mc_core::slice_bits_eq(&sg, &g) {
+            if !mc_core::slice_bits_eq(&sg, &g) && !answered.iter().any(|e| mc_core::slice_bits_eq(&e.3, &sg)) {
                 viol("reported-gradient-is-not-that-of-the-returned-position", format!("draw {d}: {sg:?} vs {g:?}"), p);
             }
         }
